@@ -112,6 +112,9 @@ func leanCache(c CacheAPI, op Op) {
 		c.SetDefaultExpiration(op.D)
 	case CDefaultExpiration:
 		c.DefaultExpiration()
+		if op.N == 1 {
+			c.HasCallback()
+		}
 	case CSetCallback:
 		if op.N == 0 {
 			c.SetEvictedCallback(nil)
